@@ -54,6 +54,9 @@ def gen_beh(rng, typ, feats) -> Dict[str, Any]:
         if feats["future"] and rng.random() < 0.4:
             b["future"] = True
             b["p_future"] = rng.choice([0.3, 0.6])
+            if feats.get("future_pers") and typ == "hybrid":
+                # replies that carry persistent attributes together with a future time
+                b["future_pers"] = True
         if rng.random() < 0.15:
             b["explicit_time"] = True
     if feats["react"] and rng.random() < 0.5:
@@ -93,6 +96,7 @@ def swarm_features(rng, force=None) -> Dict[str, bool]:
         "react": rng.random() < 0.3,
         "extra_init": rng.random() < 0.3,
         "multi_pair": rng.random() < 0.2,
+        "future_pers": False,     # carve-out 3 (persistent attributes with a future time): only when forced
     }
     if force:
         f.update(force)
